@@ -38,6 +38,15 @@ def ofRow (r : C12.Row) : Json :=
     (match r.intensity with | none => .null | some x => ofRat x), ofPep r.pep,
     ofList ofRat r.tmt, ofList ofRat r.silac, ofInt r.id]
 
+/-- a design line `[name, experiment, fraction]` -/
+def jdesign (j : Json) : R C12.DesignLine := do
+  match j with
+  | .arr #[n, e, f] => pure { name := ← jstr n, experiment := ← jstr e, fraction := ← jstr f }
+  | _ => .error s!"expected [name, experiment, fraction], got {j.compress}"
+
+/-- the `Raw file` of a row (only read when a design is given) -/
+def jraw (j : Json) : R String := do jstr (← jget j "raw")
+
 def jibaq (j : Json) : R (String × Nat) := do
   match j with
   | .arr #[p, n] => pure (← jstr p, ← jnat n)
@@ -53,7 +62,8 @@ end C12io
 
 open C12io in
 /-- `{"op":"quant","rows":[{id,pep,z,exp,frac,prot,int,pp,silac,tmt}…],"groups":[[protein…]…],
-     "level":[num,den],"ibaq":[[protein,n]…]}` →
+     "level":[num,den],"ibaq":[[protein,n]…]}` (optionally `"design":[[name,experiment,fraction]…]` and a
+     `"raw"` field in every row: the run with `--experimental_design_file` / `--file_list_file`) →
     `{"experiments","nSilac","nTmt","peps","cutoff","attached":[[pq…]…],"groups":[{ids,quants,counts,
       idType,total,intens,nPeps,ibaqTotal,ibaq,tmt,evidenceIds}…]}` or `{"err":"bad_silac_channels"}` -/
 def handleQuant (j : Json) : R Json := do
@@ -61,7 +71,13 @@ def handleQuant (j : Json) : R Json := do
   let groups ← jgroups (← jget j "groups")
   let level ← jrat (← jget j "level")
   let ibaq ← jlist jibaq (← jget j "ibaq")
-  match C12.quantify rows groups level ibaq with
+  let run ← match jgetOpt j "design" with
+    | none | some .null => pure (C12.quantify rows groups level ibaq)
+    | some d => do
+      let design ← jlist jdesign d
+      let raws ← jlist jraw (← jget j "rows")
+      pure (C12.quantifyDesign design (raws.zip rows) groups level ibaq)
+  match run with
   | .error e => pure (ofErr e)
   | .ok o =>
     pure (obj [("experiments", ofStrs o.experiments), ("nSilac", ofInt o.nSilac), ("nTmt", ofInt o.nTmt),
